@@ -162,12 +162,12 @@ pub fn families(tier: Tier) -> Vec<(&'static str, Vec<String>)> {
 /// prints must read back as the same literal of the same kind
 pub fn literal_docs() -> Vec<String> {
   let lits = [
-    "0", "1", "-1", "23", "24", "255", "256", "65535", "65536", "4294967295", "4294967296", "9223372036854775807", "9223372036854775808", "18446744073709551615", "-9223372036854775808",
+    "-0", "'x\ny'", "h'01\n02'", "b64'AQ\nID'", "0", "1", "-1", "23", "24", "255", "256", "65535", "65536", "4294967295", "4294967296", "9223372036854775807", "9223372036854775808", "18446744073709551615", "-9223372036854775808",
     "-9223372036854775809", "-18446744073709551616", "0x10", "0b101", "-0x1F", "0.0", "-0.0", "1.0", "1.5", "0.1", "1e-7", "1e3", "1e15", "1e16", "1e17", "9.0e18", "9223372036854775808.0", "1e19", "1e20",
     "1.8446744073709552e19", "-2.5e30", "1e300", "1.7976931348623157e308", "5e-324", "123456789.125", "0x1p3", "0x1.8p-3", "-0x1p4", "\"\"", "\"a\"", "\"\\\"\\\\\"", "\"\\u00e9\\n\"",
     "\"\\ud83d\\ude00\"", "\"x\\u007fy\"", "\"\\u007f\"", "\"it's\"", "'say \"hi'", "'a'", "''", "h'00ff'", "h''", "b64'AQID'", "'\\''",
   ];
-  let ctxs = ["r = {@: int}", "r = @", "r = @ / int", "r = [@]", "r = [@, @]", "r = {@ => int}", "r = {a: @}", "r = 0..@", "r = @...@", "r = int .lt @", "r = tstr .default @", "r = m<@>\nm<t> = t", "r = [2*3 @]", "r = #6.1(@)", "r = (@)", "r = {? @ ^ => @}"];
+  let ctxs = ["r = [ @ // int // bool ]", "r = { @: int // c: 1 // d: 2 }", "r = [ a: 1, b: 2, c: 3, d: 4 // @ // f: 6 ]", "r = {@: int}", "r = @", "r = @ / int", "r = [@]", "r = [@, @]", "r = {@ => int}", "r = {a: @}", "r = 0..@", "r = @...@", "r = int .lt @", "r = tstr .default @", "r = m<@>\nm<t> = t", "r = [2*3 @]", "r = #6.1(@)", "r = (@)", "r = {? @ ^ => @}"];
   let mut out = vec![];
   for l in lits {
     for c in ctxs {
@@ -189,7 +189,7 @@ pub fn run(tier: Tier) -> i32 {
     forms, #, #6, #n, #n.m, non-literal tag numbers, ~unwrap, &enum, generic arguments, sockets, ranges, 22+ control operators, every occurrence form, every \
     member-key form incl. cuts, inline groups, group choices, parenthesised types, nesting depth 2); (rule_headers) generic parameters, /= and //= increments, \
     sockets, group rules over every entry list; (control_operators) each of the 37 registered control operator names x 6 operand shapes x 4 positions; (multi_rule) all ordered pairs (thorough: triples) of 12 representative rules; (respelled) comma-free, \
-    multi-line and tab/CRLF spellings; (literals) 58 boundary literals (integers around 2^8 .. 2^64, floats around 2^53, 2^63, 2^64 and the ends of the f64 range, hex floats, text with escapes, byte strings) x 15 positions. transitions = format edge s1=Display(parse(D)) and re-format edge Display(parse(s1)) from every state. Oracle on every \
+    multi-line and tab/CRLF spellings; (literals) 62 boundary literals (integers around 2^8 .. 2^64, floats around 2^53, 2^63, 2^64 and the ends of the f64 range, hex floats, text with escapes, byte strings) x 19 positions. transitions = format edge s1=Display(parse(D)) and re-format edge Display(parse(s1)) from every state. Oracle on every \
     state: s1 is accepted; shape(parse(s1)) == shape(parse(D)) where shape keeps everything but spans, comment fields and optional commas; second formatting == s1. \
     Texts the parser rejects are outside the quantifier and only counted. non-trivial = accepted states (each exercises parse, print, re-parse, re-print)."
     .into();
